@@ -189,13 +189,13 @@ var specs = map[string]Spec{
 		MemGB: 12, CaseTimeoutS: 150,
 		HangViolation: regexp.MustCompile(`ReplicationStreamObserver\)\.`),
 		Level:         "exploration",
-		LevelText:     "The real stream handler in all three modes, with the real ReplicationStreamObserver wired as createServer wires it, is opened with hostile stream-open metadata (each of the four ids at int32 boundary values, values that wrap in the decoder, non-numeric / missing / duplicated headers, pairs of hostile ids, seeded random int32s) in a child process under ulimit -v; then a well-formed stream must be served end to end on the same server and the observer's counters must return to zero. A hostile open must be served or rejected - a process death is attributed to the case by the driver; a handler parked on the observer's lock (goroutine dump) is the wedge the property names.",
+		LevelText:     "The real stream handler in all three modes, with the real ReplicationStreamObserver wired as createServer wires it, is opened with hostile stream-open metadata (each of the four ids at int32 boundary values, values that wrap in the decoder, non-numeric / missing / duplicated headers, pairs of hostile ids, seeded random int32s) in a child process under ulimit -v; then a well-formed stream must be served end to end on the same server and the observer's counters must return to zero. A hostile open must be served or rejected - a process death is attributed to the case by the driver; a handler parked on the observer's lock (goroutine dump) while a fresh caller cannot take that lock for 20 s either is the wedge the property names (a slow machine shows the first without the second). Extra cases: 16 500 distinct shard ids held open at once through the real handler (more than any cluster has shards: LCM-mode ids or a misbehaving peer), the observer's active-stream report called over them, then a well-formed stream, then everything ends and the counters must be back at zero.",
 		LevelNote:     "Real time (no bubble): a wedged mutex would keep a virtual clock from advancing. Verdicts are state-based (outgoing stream opened, handler returned, goroutine parked in the observer); a plain timeout without the forbidden state is inconclusive. The assembled gRPC servers in front of the handler are covered by the wire engine.",
 		Technique:     "runtime monitor: hostile-input stress of the real handler + observer in child processes (ulimit -v), follow-up liveness probe, counter-conservation check, goroutine-dump inspection for the wedged state",
 		DesignRef:     "DESIGN.md §4 C20",
 		Rule:          "cases = mode x (id position x boundary/wrapping/malformed value | pairs | random int32); each case = hostile open + follow-up well-formed stream + conservation check; distinct = distinct (mode, metadata) combinations; all non-trivial",
 		Assumptions:   []string{"in-memory streams; fake serving cluster accepts every shard id", "ids up to 2^28 (largest LCM of two supported shard counts) may legitimately allocate bookkeeping; the child runs under ulimit -v 12 GB"},
-		QuickFloors:   map[string]int64{"hostile_opens": 700, "follow_up_served_end_to_end": 600, "concurrent_rounds_conserved": 1000},
+		QuickFloors:   map[string]int64{"hostile_opens": 700, "follow_up_served_end_to_end": 600, "concurrent_rounds_conserved": 1000, "streams_held_open": 16500},
 		MaxSamples:    3,
 	},
 	"C08": {
@@ -204,13 +204,13 @@ var specs = map[string]Spec{
 		QuickShards:   16, ThoroughShards: 16, QuickWatchdog: 10 * time.Minute, ThoroughWatchdog: 90 * time.Minute,
 		MaxProcs:    []int{16, 16, 8, 4},
 		Level:       "exploration",
-		LevelText:   "Successive incarnations of one shard's stream are opened against the real routing handlers with every kind of overlap (while the old one is healthy, right after its cancellation, while its unwinding is parked by the probe logger at each of its cleanup log points, after it returned; chains of 2-4 incarnations) in virtual time, then in real threads under -race (old incarnation's unregister against the new one's register, and whole-handler overlap rounds). At quiescence with the newest incarnation live the oracle reads the registry through the exported API (ownership, delivery channel, ack channel, receiver cancel function, active receiver), sends a marked probe task and a probe ack through the shard manager and checks they reach the newest stream / a live consumer, and checks that a freshly registered target gets a watermark replay from every live receiver; after all streams end nothing may remain registered and no goroutine of the proxy may be left. A process death is attributed to the running case; race reports on the shard/channel maps are violations.",
+		LevelText:   "Successive incarnations of one shard's stream are opened against the real routing handlers with every kind of overlap (also with a first incarnation whose peer never reads while a source has 130 tasks for it, so that a deliverer sits blocked on the OLD incarnation's full channel while the registration is replaced and the old channel is then closed) (while the old one is healthy, right after its cancellation, while its unwinding is parked by the probe logger at each of its cleanup log points, after it returned; chains of 2-4 incarnations) in virtual time, then in real threads under -race (old incarnation's unregister against the new one's register, and whole-handler overlap rounds). At quiescence with the newest incarnation live the oracle reads the registry through the exported API (ownership, delivery channel, ack channel, receiver cancel function, active receiver), sends a marked probe task and a probe ack through the shard manager and checks they reach the newest stream / a live consumer, and checks that a freshly registered target gets a watermark replay from every live receiver; after all streams end nothing may remain registered and no goroutine of the proxy may be left. A process death is attributed to the running case; race reports on the shard/channel maps are violations.",
 		LevelNote:   "Probe parking reaches only the code's own log points; lock windows without a log call are reached by real-thread stress with some probability per round (reported as rounds run), not by construction. Single proxy instance (intra-proxy routing of C08's clauses is not modelled).",
 		Technique:   "runtime monitor: registry-state and behavioural-probe oracles at quiescent points of overlapping stream incarnations (virtual-time probe parking + real-thread stress), goroutine census, race detector on the registration maps",
 		DesignRef:   "DESIGN.md §4 C08",
 		Rule:        "cases = overlap kind x timing (single re-opens, all kinds) + seeded chains of 2-3 re-opens + per-child stress blocks; distinct = distinct (overlap sequence, timings) tuples; all non-trivial (each opens at least two incarnations)",
 		Assumptions: routeAssumptions,
-		QuickFloors: map[string]int64{"overlap_cases": 150, "register_race_rounds": 50000, "overlap_rounds": 1000},
+		QuickFloors: map[string]int64{"overlap_cases": 150, "register_race_rounds": 50000, "overlap_rounds": 1000, "deliveries_that_hit_a_closed_channel": 1},
 		MaxSamples:  2,
 	},
 	"C12": {
@@ -316,18 +316,19 @@ var specs = map[string]Spec{
 		MaxSamples:  3,
 	},
 	"C10": {
+		ExtraEngine: "wire", ExtraRun: "^TestMuxEstablisher$", ExtraRace: true, ExtraShards: 9,
 		Engine: "muxsim", Run: "^TestMux$", Race: true,
 		RaceViolation: regexp.MustCompile(`multiMuxManager\)\.(AddConnection|unregisterMux|GetMuxConnections|notifyChange|onClose)`),
 		QuickShards:   16, ThoroughShards: 16, QuickWatchdog: 10 * time.Minute, ThoroughWatchdog: 90 * time.Minute,
 		MaxProcs:    []int{16, 4, 2, 1},
 		Level:       "fault_enumeration",
 		LevelText:   "The real mux provider, multi-mux manager and managed sessions run over net.Pipe connections handed out by a scripted connection provider in virtual time. Every fault script over seven per-attempt outcomes (dial failure, peer closes at once, peer silent, yamux setup error, peer talks garbage, session dies later, session closed locally) up to a length bound for pool sizes 1-2 and random longer scripts for pools up to 4 are run to heal: the table may never exceed the limit (checked inside the manager's own list-update callback and at the peer), and 90 virtual seconds after the last fault the pool must be at full strength with the provider reporting no free slot, every slot carrying a stream. The lifetime is cancelled at the k-th occurrence of every provider step (before/after NewConnection, before/after session setup, before/after registration): afterwards the manager must report closed, no session may stay registered and every connection ever handed to the provider must have been closed.",
-		LevelNote:   "Fault and cancel positions are logical (k-th occurrence of a provider step) and enumerated; the thread interleaving around them is sampled under -race. The scripted provider consumes 3 ms of virtual time per attempt (a real dial/accept blocks; the provider retries without back-off). Real TCP establisher/receiver are exercised by the tlsmatrix and wire engines.",
+		LevelNote:   "Fault and cancel positions are logical (k-th occurrence of a provider step) and enumerated; the thread interleaving around them is sampled under -race. The scripted provider consumes 3 ms of virtual time per attempt (a real dial/accept blocks; the provider retries without back-off). The real TCP establisher (dial with exponential back-off) is exercised by an extra pass of the wire engine (TestMuxEstablisher): the real GRPCMuxManager in mux-client role dials a harness listener that listens with a working yamux server, refuses, accepts-and-closes and kills sessions on a script; from accepts and connection ends alone the harness checks the limit, the refill to full strength, and after the lifetime ends: every connection closed, CloseChan within the establisher's own back-off bound, and no connection ever again - also not when a peer that was unreachable during shutdown comes back. The real TCP receiver is exercised by the C11/C15/C19 wire cases.",
 		Technique:   "runtime monitor + fault injection: scripted connection outcomes and cancellation at enumerated provider steps on the real provider/manager/session in virtual time; limit, permit-conservation, heal and everything-closed oracles; race detector on the session table",
 		DesignRef:   "DESIGN.md §4 C10",
 		Rule:        "cases = pool size x fault script [x cancel step kind x occurrence]; distinct = distinct (pool size, script, cancel point) tuples; all non-trivial",
 		Assumptions: []string{"net.Pipe + yamux in a synctest bubble; harness-side peers are yamux clients", "ConnectionWriteTimeout 2 s for the sessions built by the scripted session function"},
-		QuickFloors: map[string]int64{"scripts": 400, "healed_to_full_strength": 200, "cancel_points_hit": 100},
+		QuickFloors: map[string]int64{"scripts": 400, "healed_to_full_strength": 200, "cancel_points_hit": 100, "quiet_after_shutdown": 5, "full_strength_reached": 6},
 		MaxSamples:  2,
 	},
 	"C09": {
@@ -365,13 +366,13 @@ var specs = map[string]Spec{
 		RaceViolation: regexp.MustCompile(`MultiClientConn\)|multiMuxManager\)`),
 		QuickShards:   16, ThoroughShards: 16, QuickWatchdog: 10 * time.Minute, ThoroughWatchdog: 90 * time.Minute,
 		Level:       "exploration",
-		LevelText:   "The real MultiClientConn is driven by the real GRPCMuxManager (receiver role) over loopback TCP + yamux. Harness peers connect, serve a tagged gRPC server on their session and die on a seeded script (add, kill, flap = die right after establishment, kill all, replace = kill and add at once) while three client goroutines issue RPCs continuously. After every update, at a quiescent point reached by polling state (not by sleeping), the set of registered sessions must equal the number of live peer sessions, the endpoint keys the client connection may dial (MultiClientConn.Describe) must equal the registered keys, and CanMakeCalls must equal 'set non-empty'; a fresh RPC must then succeed if a session is alive and fail with Unavailable/DeadlineExceeded if none is; over the whole history every successful RPC must have been served by a peer whose session was alive during the call.",
+		LevelText:   "The real MultiClientConn is driven by the real GRPCMuxManager (receiver role) over loopback TCP + yamux. Harness peers connect, serve a tagged gRPC server on their session and die on a seeded script (add, kill, flap = die right after establishment, kill all, replace = kill and add at once) while three client goroutines issue RPCs continuously. After every update, at a quiescent point reached by polling state (not by sleeping), the set of registered sessions must equal the number of live peer sessions, the endpoint keys the client connection may dial (MultiClientConn.Describe) must equal the registered keys, and CanMakeCalls must equal 'set non-empty'; a fresh RPC must then succeed if a session is alive and fail with Unavailable/DeadlineExceeded if none is; over the whole history every successful RPC must have been served by a peer whose session was alive during the call. Variants: a slow list-update listener; a client connection with a 300 ms gRPC idle timeout (a quarter of the random cases, plus scripted cases in which the clients fall quiet so that the channel goes idle between updates and calls, and in which the session list changes while it is idle); scripted cases with a session whose health check failed once (the harness peer swallows its reply to the second ping: the session keeps working, its state reads Error) registered when the list changes.",
 		LevelNote:   "Real time and sockets. A state that is still wrong after the live-peer set has been stable for 8 s is a violation by state (stale set); transport hiccups shorter than that are tolerated by polling. gRPC's own balancer is in the loop (round robin over the resolver's endpoints).",
 		Technique:   "runtime monitor: state-equality oracle at polled quiescent points + availability probes + served-by-live-session check over the recorded RPC history, race detector",
 		DesignRef:   "DESIGN.md §4 C11",
-		Rule:        "cases = seeded update sequences of 14 operations for pool sizes 1-3; distinct = cases; all non-trivial",
+		Rule:        "cases = seeded update sequences of 14 operations for pool sizes 1-3 (listener slow/prompt, idle timeout on/off) + 4 scripted idle / failed-health-check cases; distinct = cases; all non-trivial",
 		Assumptions: []string{"peers are yamux clients running a gRPC server on the session; the proxy side is the real receiver provider"},
-		QuickFloors: map[string]int64{"updates": 60, "quiescent_points_checked": 60, "rpcs_ok": 150},
+		QuickFloors: map[string]int64{"updates": 60, "quiescent_points_checked": 60, "rpcs_ok": 150, "quiet_periods": 3, "registered_sessions_seen_in_error_state": 1},
 		MaxSamples:  2,
 	},
 	"C05": {
